@@ -434,11 +434,28 @@ def do(op: dict) -> str:
         np0 = len(getattr(sv, "_verif_permutations", []))
         LOG.clear()
         try:
-            sv.solve(max_iterations=op["k"])
+            ret = sv.solve(max_iterations=op["k"])
         except Exception as e:  # noqa: BLE001
             return f"error={err_class(e)} msg={str(e)[:60].replace(' ', '_').replace('=', ':')}"
         if getattr(sv, "checkpoint_manager", None) is not None:
             sv.checkpoint_manager.wait_until_finished()
+        # what solve() RETURNS is what the caller sees: it must be the state the solver holds (the harness reads the attributes)
+        bad_ret = []
+        try:
+            if not np.array_equal(np.asarray(ret.values), np.asarray(sv.values)):
+                bad_ret.append("values")
+            if (ret.policy is None) != (sv.policy is None) or (ret.policy is not None and not np.array_equal(np.asarray(ret.policy), np.asarray(sv.policy))):
+                bad_ret.append("policy")
+            if int(ret.info.iteration) != int(sv.iteration):
+                bad_ret.append("iteration")
+            if hasattr(ret.info, "gain") and float(ret.info.gain) != float(sv.gain):
+                bad_ret.append("gain")
+            if hasattr(ret.info, "history_index") and int(ret.info.history_index) != int(sv.history_index):
+                bad_ret.append("history_index")
+        except Exception as e:  # noqa: BLE001
+            bad_ret.append("unreadable:" + err_class(e))
+        if bad_ret:
+            return "error=ReturnedStateDiffersFromSolverState msg=" + "+".join(bad_ret)
         conv = any(("Convergence threshold reached" in m) or ("Policy converged" in m) for m in LOG)
         saves = []
         for m in LOG:
